@@ -421,3 +421,36 @@ def effect_programs():
         text = "fn g(o: Option<u8>) -> u8 { let %s: %s = %s; 9 }\nfn main() { assert!(jet::eq_8(g(witness::O), 9)); }" % (p, t, e)
         out.append(Prog(text, [("O", ("O", U8))], "effect/fn/%s/%s" % (p, e[:20])))
     return out
+
+
+# ----------------------------------------------------------------------------- scope x type family
+def scope_type_family():
+    """a name re-bound at a DIFFERENT type in a nested scope (block, function body, match arm): well-typed uses ("W", must be
+    accepted and behave) and ill-typed uses ("I", must be rejected); plus several plain variables observed at once after a
+    destructured name was re-bound.  Lookup mistakes in the typing side and in the code-generation side show differently:
+    the former only when the types differ, the latter only when several variables are fetched together."""
+    pairs = [("u8", "1", "u16", "300", "eq_8", "eq_16"), ("u16", "7", "u8", "9", "eq_16", "eq_8"), ("u8", "5", "u32", "70000", "eq_8", "eq_32")]
+    out = []
+    for (t1, v1, t2, v2, e1, e2) in pairs:
+        d = dict(t1=t1, v1=v1, t2=t2, v2=v2, e1=e1, e2=e2)
+        for tag, tmpl in [
+            ("W", "fn main() { let a: %(t1)s = %(v1)s; let b: %(t2)s = { let a: %(t2)s = %(v2)s; a }; assert!(jet::%(e2)s(b, %(v2)s)); assert!(jet::%(e1)s(a, %(v1)s)); }"),
+            ("I", "fn main() { let a: %(t1)s = %(v1)s; let b: %(t1)s = { let a: %(t2)s = %(v2)s; a }; assert!(jet::%(e1)s(a, %(v1)s)); }"),
+            ("W", "fn main() { let a: %(t1)s = %(v1)s; { let a: %(t2)s = %(v2)s; assert!(jet::%(e2)s(a, %(v2)s)); }; assert!(jet::%(e1)s(a, %(v1)s)); }"),
+            ("I", "fn main() { let a: %(t1)s = %(v1)s; { let a: %(t2)s = %(v2)s; assert!(jet::%(e1)s(a, %(v1)s)); }; }"),
+            ("I", "fn main() { let a: %(t1)s = %(v1)s; { let a: %(t2)s = %(v2)s; }; assert!(jet::%(e2)s(a, %(v2)s)); }"),
+            ("W", "fn f(a: %(t1)s) -> %(t2)s { let a: %(t2)s = %(v2)s; a }\nfn main() { assert!(jet::%(e2)s(f(%(v1)s), %(v2)s)); }"),
+            ("I", "fn f(a: %(t1)s) -> %(t1)s { let a: %(t2)s = %(v2)s; a }\nfn main() { assert!(jet::%(e1)s(f(%(v1)s), %(v1)s)); }"),
+            ("W", "fn f(a: %(t1)s) -> %(t1)s { let b: %(t2)s = { let a: %(t2)s = %(v2)s; a }; a }\nfn main() { assert!(jet::%(e1)s(f(%(v1)s), %(v1)s)); }"),
+            ("W", "fn main() { let a: %(t1)s = %(v1)s; let e: Either<%(t2)s, ()> = Left(%(v2)s); match e { Left(a: %(t2)s) => assert!(jet::%(e2)s(a, %(v2)s)), Right(u: ()) => assert!(jet::%(e1)s(a, %(v1)s)), }; assert!(jet::%(e1)s(a, %(v1)s)); }"),
+            ("I", "fn main() { let a: %(t1)s = %(v1)s; let e: Either<%(t2)s, ()> = Left(%(v2)s); match e { Left(a: %(t2)s) => assert!(jet::%(e1)s(a, %(v1)s)), Right(u: ()) => (), }; }"),
+            ("W", "fn main() { let a: %(t1)s = %(v1)s; let o: Option<%(t2)s> = Some(%(v2)s); match o { None => assert!(jet::%(e1)s(a, %(v1)s)), Some(a: %(t2)s) => assert!(jet::%(e2)s(a, %(v2)s)), }; }"),
+            ("W", "fn f(b: %(t2)s) -> %(t2)s { b }\nfn main() { let a: %(t1)s = %(v1)s; assert!(jet::%(e2)s(f(%(v2)s), %(v2)s)); assert!(jet::%(e1)s(a, %(v1)s)); }"),
+            ("I", "fn f(b: %(t2)s) -> %(t1)s { a }\nfn main() { let a: %(t1)s = %(v1)s; assert!(jet::%(e1)s(f(%(v2)s), %(v1)s)); }"),
+        ]:
+            out.append((tag, tmpl % d))
+    out.append(("W", "fn main() { let (a, b): (u8, u8) = (1, 2); let c: u8 = 3; let a: u8 = 4; let t: (u8, u8) = (a, c); assert!(jet::eq_16(<(u8, u8)>::into(t), 1027)); let s: (u8, u8) = (b, a); assert!(jet::eq_16(<(u8, u8)>::into(s), 516)); }"))
+    out.append(("W", "fn g(x: u8, y: u8) -> u16 { <(u8, u8)>::into((x, y)) }\nfn f(a: u8, b: u8) -> u16 { let a: u8 = 9; g(a, b) }\nfn main() { assert!(jet::eq_16(f(1, 2), 2306)); }"))
+    out.append(("W", "fn main() { let [a, b]: [u8; 2] = [1, 2]; let a: u8 = 7; let (x, y): (u8, u8) = (a, b); assert!(jet::eq_8(x, 7)); assert!(jet::eq_8(y, 2)); let arr: [u8; 2] = [b, a]; let [p, q]: [u8; 2] = arr; assert!(jet::eq_8(p, 2)); assert!(jet::eq_8(q, 7)); }"))
+    out.append(("W", "fn h(a: u8, b: u8, c: u8) -> (u8, u8, u8) { let b: u8 = 8; let (c, a): (u8, u8) = (a, c); (a, b, c) }\nfn main() { let (x, y, z): (u8, u8, u8) = h(1, 2, 3); assert!(jet::eq_8(x, 3)); assert!(jet::eq_8(y, 8)); assert!(jet::eq_8(z, 1)); }"))
+    return out
